@@ -331,19 +331,17 @@ Section Sub.
   Lemma params_loop_ok n : forall acc s, W s -> (M s < n)%nat -> ok s (params_loop n acc s).
   Proof.
     induction n as [|n IH]; intros acc s HW Hn; [lia|].
-    cbn [params_loop]. destruct (peek_is s T_COMMA) eqn:Hp; [|fin].
-    cbv zeta. prep (ps_next (ps_next s)).
-    peekpos Hp.
-    eapply okm_conv; [apply IH; [assumption|lia] | congruence | lia].
+    cbn [params_loop]. destruct (peek_is s T_COMMA) eqn:Hp.
+    - prep (ps_next s). peekpos Hp. dexp; [|fin].
+      eapply okm_conv; [apply IH; [assumption|lia] | congruence | lia].
+    - dexp; fin.
   Qed.
 
   Lemma parse_function_parameters_ok s : W s -> (M s < lf)%nat -> ok s (parse_function_parameters lf s).
   Proof.
     intros HW Hn. unfold parse_function_parameters.
-    destruct (peek_is s T_RPAREN); [fin|]. cbv zeta. prep (ps_next s).
-    assert (Hx : ok (ps_next s) (params_loop lf [mk_ident (ps_cur (ps_next s))] (ps_next s)))
-      by (apply params_loop_ok; [assumption|lia]).
-    destr_ok Hx. dexp; fin.
+    destruct (peek_is s T_RPAREN); [fin|]. dexp; [|fin].
+    eapply okm_conv; [apply params_loop_ok; [assumption|lia] | congruence | lia].
   Qed.
 
   Lemma block_loop_ok n : forall acc s, W s -> (M s < n)%nat -> (M s < K)%nat -> ok s (block_loop sfn n acc s).
